@@ -11,6 +11,7 @@ ROOTS = {
     "core.rechunk_for_blockwise": {"array": "array"},     # labels are documented NumPy
     "core.rechunk_for_cohorts": {"array": "array"},
     "xarray.xarray_reduce.wrapper": {"array": "array", "by": "tuple"},   # called by xr.apply_ufunc(dask='allowed') with the blocks unevaluated
+    "core._get_expected_groups": {"by": "array"},                        # called by xarray_reduce with b_.data (possibly chunked): must refuse, not materialise
 }
 EXEMPT = {
     "xrutils._contains_cftime_datetimes": ".compute() on the first element of an object-dtype array; C12 excludes object dtypes",
